@@ -18,6 +18,10 @@ import shutil
 import vlib
 
 SPECDIR = os.path.join(vlib.BUILD, "spec816")
+SNAPDIR = os.path.join(vlib.COQ, "Snapshot")
+if "Snapshot" not in vlib.COQ_ARGS:
+    vlib.COQ_ARGS += ["-Q", SNAPDIR, "Snapshot"]
+PROOF_FILES = ["C01Base", "C01OpsA", "C01OpsB", "C01OpsC", "C01OpsD", "C01OpsE", "C01Props"]
 CORPUS = os.path.join(vlib.ROOT, "corpus", "C01", "cases.txt")
 SNAPSHOT = os.path.join(vlib.COQ, "Snapshot", "GenCpu65.v")
 
@@ -226,6 +230,8 @@ def split_defs(src):
     out = {}
     cur, name = [], None
     for line in src.splitlines():
+        if re.match(r"\(\* \S+\.go:\d+\s+func .*\*\)\s*$", line):
+            continue  # source position comments move with every edit of the Go file
         m = re.match(r"(Definition|Fixpoint)\s+([A-Za-z_0-9']+)", line)
         if m:
             if name:
@@ -247,26 +253,70 @@ def snapshot_delta():
     return sorted(n for n in set(a) | set(b) if a.get(n) != b.get(n))
 
 
+def hygiene():
+    """No Axiom/Parameter/Admitted/... in the files of this package."""
+    bad = []
+    pat = re.compile(r"^\s*(Axiom|Axioms|Parameter|Parameters|Conjecture|Admitted|Variable|Variables|Hypothesis|Hypotheses|"
+                     r"Unset Guard Checking|Unset Positivity Checking|Unset Universe Checking)\b|\badmit\b")
+    files = [os.path.join(vlib.COQ, "Spec", n) for n in ("ISA.v", "Spec816.v", "Spec816Examples.v")]
+    files += [os.path.join(vlib.COQ, "Props", n + ".v") for n in PROOF_FILES]
+    for f in files:
+        if not os.path.exists(f):
+            continue
+        src = re.sub(r"\(\*.*?\*\)", "", open(f).read(), flags=re.S)
+        for k, line in enumerate(src.splitlines()):
+            if pat.search(line):
+                bad.append("%s:%d: %s" % (os.path.basename(f), k + 1, line.strip()))
+    return bad
+
+
+def live_replay(ck):
+    """Compile the proof files of Props/ against the REGENERATED model (From Gen instead of From Snapshot)."""
+    names = {}
+    for n in PROOF_FILES:
+        src = open(os.path.join(vlib.COQ, "Props", n + ".v")).read()
+        src = src.replace("From Snapshot Require Import", "From Gen Require Import")
+        src = re.sub(r"From Props Require Import ([^.]*)\.",
+                     lambda m: "From Run Require Import " + " ".join("C01L_" + x for x in m.group(1).split()) + ".", src)
+        path = os.path.join(vlib.RUN, "C01L_%s.v" % n)
+        vlib.write_if_changed(path, src)
+        names[n] = path
+    t0 = __import__("time").time()
+    rc, out, _, _ = vlib.coqc(names["C01Base"], timeout=1200)
+    if rc != 0:
+        return False, "C01Base (infrastructure, Step_imp8) against the regenerated model:\n" + out[-1500:], 0
+    ops = [n for n in PROOF_FILES if n.startswith("C01Ops")]
+    res = vlib.parallel([(lambda n=n: vlib.coqc(names[n], timeout=2400)) for n in ops], workers=8)
+    for n, (rc, out, _, _) in zip(ops, res):
+        if rc != 0:
+            return False, "%s against the regenerated model:\n%s" % (n, out[-1500:]), 0
+    rc, out, _, _ = vlib.coqc(names["C01Props"], timeout=1200)
+    return rc == 0, out[-1500:], __import__("time").time() - t0
+
+
 def props_obligations(ck):
-    """Static refinement theorems (Props/C01Props.v), restated per run; applicability = snapshot comparison."""
+    """Static refinement theorem (Props/C01Props.v), restated per run; applicability = snapshot comparison,
+    and, when the model changed (or in the thorough tier), replay of the proofs against the regenerated model."""
     pv = os.path.join(vlib.COQ, "Props", "C01Props.v")
-    if not os.path.exists(pv):
-        ck.cov["proved_opcodes"] = 0
-        ck.cov["proved_note"] = "no refinement theorem in this build: every opcode is covered by the differential run only"
-        return
     src = open(pv).read()
     runv = os.path.join(vlib.RUN, "C01_props.v")
-    vlib.write_if_changed(runv, """(* per-run restatement of the static refinement theorems *)
+    snap_sha = vlib.sha(vlib.file_sha(SNAPSHOT), vlib.file_sha(os.path.join(SNAPDIR, "GenFields.v")))
+    vlib.write_if_changed(runv, """(* per-run restatement of the static refinement theorem; snapshot %s *)
 From Coq Require Import ZArith List.
-From Props Require Import C01Props.
+From Lib Require Import Machine.
+From Snapshot Require Import GenFields GenCpu65.
+From Props Require Import C01Base C01Props.
 Definition n_proved := Eval vm_compute in List.length proved_opcodes.
 Print n_proved.
 Definition the_proved := Eval vm_compute in proved_opcodes.
 Print the_proved.
-Theorem C01_step_partial_run : C01_step_partial_statement.
+Theorem C01_step_partial_run :
+  forall op, In op proved_opcodes ->
+  forall s, wf s -> get f_E s = 0%%Z -> no_int s -> opcode_at s = op -> refines_step s (Step s).
 Proof. exact C01_step_partial. Qed.
 Print Assumptions C01_step_partial_run.
-""")
+Print Assumptions C01_hypotheses_satisfiable.
+""" % snap_sha[:16])
     fresh = vlib.static_vo_fresh(runv)
     rc, out, dt, cached = vlib.coqc(runv, timeout=900)
     ok = rc == 0 and fresh
@@ -274,28 +324,38 @@ Print Assumptions C01_step_partial_run.
     n = int(m.group(1)) if m else 0
     m2 = re.search(r"the_proved =\s*(.*?)\s*: list", out, re.S)
     plist = [int(x) for x in re.findall(r"\d+", m2.group(1))] if m2 else []
-    ck.oblige("Theorem C01_step_partial (primary interpreter model refines Spec816.step through abs, %d/256 opcodes)" % n,
+    ck.oblige("Theorem C01_step_partial: for the %d opcodes of proved_opcodes, forall s, wf s -> E = 0 -> no pending interrupt -> "
+              "the generated model's Step refines Spec816.step through abs (registers, flags, PC, memory, wf of the result)" % n,
               ok, out if rc != 0 else ("static library stale: run ./check --setup" if not fresh else ""))
     if rc == 0:
         ck.assumptions += vlib.parse_assumptions(out)
-    delta = snapshot_delta()
     ck.cov["proved_opcodes"] = n
-    ck.cov["proved_opcode_list"] = plist
+    ck.cov["proved_opcode_list"] = ["%02x" % x for x in plist]
     ck.cov["proved_fraction"] = "%d/256" % n
-    deps = set(re.findall(r"snapshot_dep:\s*([A-Za-z_0-9 ,]+)", src))
+    ck.cov["proved_note"] = ("opcodes outside proved_opcodes (%d of 256) are covered by the differential run only" % (256 - n))
     used = set()
-    for dline in deps:
-        used |= {x.strip() for x in dline.split(",") if x.strip()}
+    for dline in re.findall(r"snapshot_dep:\s*([A-Za-z_0-9 ,\n]+?)\n\s*\n", src):
+        used |= {x.strip() for x in dline.replace("\n", " ").split(",") if x.strip()}
+    delta = snapshot_delta()
     if delta is None:
         ck.oblige("snapshot of the generated primary model present (coq/Snapshot/GenCpu65.v)", False, "missing")
-    else:
-        changed_used = sorted(set(delta) & used) if used else delta
-        ck.cov["snapshot_functions_changed"] = delta
-        ck.oblige("proof target = regenerated model: the functions the theorem is about (%s) are textually identical in "
-                  "Snapshot/GenCpu65.v and in the regenerated Gen/GenCpu65.v" % (", ".join(sorted(used)) or "all"),
-                  not changed_used,
-                  "changed since the snapshot: %s -- the refinement theorem does not apply to them until the snapshot is refreshed "
-                  "(tools: cp build/work/Gen/GenCpu65.v coq/Snapshot/ && ./check --setup)" % ", ".join(changed_used))
+        return
+    changed_used = sorted(set(delta) & used) if used else delta
+    ck.cov["snapshot_functions_changed"] = delta
+    ck.cov["snapshot_functions_changed_relevant"] = changed_used
+    need_live = bool(changed_used) or ck.tier == "thorough"
+    if not changed_used:
+        ck.oblige("proof target = regenerated model: the %d functions the theorem depends on are textually identical in "
+                  "Snapshot/GenCpu65.v and in the regenerated Gen/GenCpu65.v" % len(used), True)
+    if need_live:
+        okl, detail, secs = live_replay(ck)
+        ck.cov["live_replay_s"] = round(secs, 1)
+        if changed_used:
+            ck.oblige("proof target = regenerated model: functions %s differ from the snapshot; the proof files were replayed against the "
+                      "regenerated model instead" % ", ".join(changed_used), okl,
+                      "the refinement theorem does not apply to the changed functions: " + detail)
+        else:
+            ck.oblige("proof files replay against the regenerated model (From Gen)", okl, detail)
 
 
 def run_c01(ck):
@@ -426,6 +486,8 @@ def run_c01(ck):
                      {"broken_obligations": broken})
     bad = vlib.foreign_assumptions(ck.assumptions)
     ck.oblige("Print Assumptions: closed under the global context", not bad, "unexpected: %s" % bad)
+    hy = hygiene()
+    ck.oblige("no Axiom/Parameter/Admitted/admit/guard switches in Spec/ISA.v, Spec816*.v, Props/C01*.v", not hy, "; ".join(hy))
 
 
 def replay(pid, rp):
